@@ -109,9 +109,20 @@ while len(cases) < N:
         else: ires = 'OSet' if isinstance(x, AttributeSet) else 'OInt %s' % x.rebuild().strip()
         dist[ires.split()[0]] += 1
         hist.append('([%s], %s)' % ('; '.join(q(k) for k in path), ires))
-    cases.append('(%s, %d, [%s])' % (table(sets), top.id, '; '.join(hist)))
+    # positional certificate (meaningful for documents without `rec` sets; wfb rejects the others)
+    pos = {top.id: ()}
+    def go(s_, inh):
+        own = inh + tuple('SLayer %d %d' % (s_.id, i) for i, l in enumerate(s_.layers) if l)
+        for n, v in s_.values:
+            pos[v.id] = own
+            if isinstance(v, MSet): go(v, own)
+    go(top, ())
+    pm = '[' + '; '.join('(%d, [%s])' % (i, '; '.join(c)) for i, c in pos.items()) + ']'
+    cases.append('(%s, %d, [%s], %s)' % (table(sets), top.id, '; '.join(hist), pm))
 with open(OUT, 'w') as f:
-    f.write('From Coq Require Import List Ascii String Arith Bool. Import ListNotations.\nFrom C Require Import ChainModel.\nOpen Scope string_scope.\nDefinition s (x : string) : str := list_ascii_of_string x.\n')
-    f.write('Definition cases : list (table * nat * list (list str * outcome)) := [\n' + ';\n'.join(cases) + '\n].\n')
-    f.write('Eval vm_compute in (List.length cases, bad 0 cases).\n')
+    f.write('From Coq Require Import List Ascii String Arith Bool. Import ListNotations.\nFrom C Require Import ChainModel ChainProps ChainInv.\nOpen Scope string_scope.\n')
+    f.write('Definition cases : list (table * nat * list (list str * outcome) * pmap) := [\n' + ';\n'.join(cases) + '\n].\n')
+    f.write('Definition three (c : table * nat * list (list str * outcome) * pmap) := let \'(t, top, h, p) := c in (t, top, h).\n')
+    f.write('Definition in_domain (c : table * nat * list (list str * outcome) * pmap) : bool := let \'(t, top, h, p) := c in wfb t top p.\n')
+    f.write('Eval vm_compute in (List.length cases, bad 0 (map three cases), List.length (filter in_domain cases)).\n')
 print(dict(dist))
